@@ -48,6 +48,8 @@ FEATURE, RELATION, FMODEL, CTC = ("Feature",), ("Relation",), ("FeatureModel",),
 ASTT, NODE, NDATA, ASTOP, FTYPE, CARD = ("AST",), ("Node",), ("ndata",), ("astop",), ("ftype",), ("Cardinality",)
 UNKNOWN = ("?",)
 DOMAIN, RANGE = ("Domain",), ("Range",)
+PFEATURE, PRELATION = ("PFeature",), ("PRelation",)   # builder mode (readers): the pure tree values, no parent pointers
+PURE = [False]
 FSET = ("fset",)          # a set of features as a value (outside the functions that share and mutate sets)
 SETREF, STORE = ("setref",), ("store",)
 INTSTR = ("intstr",)     # Union[int, str] that is only ever printed or compared with integers: carried as its str()     # a set object lives in a store of sets (aliasing!); a value of type set is its index
@@ -76,7 +78,7 @@ def coq_ty(t):
     simple = {"int": "Z", "bool": "bool", "str": "string", "Feature": "lfeat", "Relation": "lrel",
               "FeatureModel": "fm", "Constraint": "ctc", "AST": "node", "Node": "node", "ndata": "ndata",
               "astop": "astop", "ftype": "ftype", "any": "aval", "Attribute": "attr", "char": "ascii", "float": "string", "Domain": "domain", "Range": "range",
-              "setref": "nat", "store": "py_store", "fset": "(list lfeat)", "intstr": "string"}
+              "setref": "nat", "store": "py_store", "fset": "(list lfeat)", "PFeature": "feature", "PRelation": "relation", "intstr": "string"}
     if k in simple:
         return simple[k]
     if k == "none":
@@ -101,6 +103,8 @@ def join(a, b):
         return INTSTR
     if {a, b} == {NDATA, STR}:
         return STR
+    if ANY in (a, b) and (a in (BOOL, INT, STR, NONE) or b in (BOOL, INT, STR, NONE)):
+        return ANY
     if a == UNKNOWN:
         return b
     if b == UNKNOWN:
@@ -270,6 +274,8 @@ def parse_ann(a, ctx):
              "Attribute": ATTRIBUTE, "VariabilityModel": FMODEL, "Domain": DOMAIN, "Range": RANGE}      # execute(model) casts to FeatureModel
         if a.id in OBJECTS:
             return ("obj", a.id)
+        if PURE[0] and a.id in ("Feature", "Relation"):
+            return PFEATURE if a.id == "Feature" else PRELATION
         if a.id in m:
             return m[a.id]
         fail(a, "unknown annotation")
@@ -396,6 +402,9 @@ class Translator:
         if v.ty == ANY and ty == List(ANY):
             self.cur.intrinsic_eff = True
             return self.lift([v], lambda c: Val(f"(match {c[0]} with VList l => Ok l | _ => Err TypeError end)", List(ANY), True))
+        if v.ty == ANY and ty == INT:
+            self.cur.intrinsic_eff = True
+            return self.lift([v], lambda c: Val(f"(match {c[0]} with VInt z => Ok z | _ => Err TypeError end)", INT, True))
         if v.ty == ANY and ty == STR:
             self.cur.intrinsic_eff = True
             return self.lift([v], lambda c: Val(f"(match {c[0]} with VStr s => Ok s | _ => Err TypeError end)", STR, True))
@@ -727,6 +736,8 @@ class Translator:
         fail(ctx, f"`in` on a table with a key of type {a.ty}")
 
     def in_code(self, a, l, ctx):
+        if a.ty == STR and l.ty == ANY:
+            return self.lift([a, l], lambda c: Val(f"(aval_has {c[1]} {c[0]})", BOOL))
         if a.ty == CHAR and l.ty == STR:
             return self.lift([a, l], lambda c: Val(f"(str_contains_char {c[0]} {c[1]})", BOOL))
         if a.ty == STR and l.ty == STR and a.code.startswith('"') and len(a.code) == 3:
@@ -950,7 +961,8 @@ class Translator:
 
     def e_Call(self, e, env):
         fn = e.func
-        if e.keywords and not (isinstance(fn, ast.Name) and fn.id == "sorted"):
+        if e.keywords and not (isinstance(fn, ast.Name) and (fn.id == "sorted" or (
+                PURE[0] and fn.id in ("Feature", "Relation", "Attribute", "FeatureModel")))):
             fail(e, "keyword arguments")
         if isinstance(fn, ast.Name):
             return self.call_name(fn.id, e, env)
@@ -1007,6 +1019,9 @@ class Translator:
                     len(e.args[0].value) == 1 and e.args[1].value == "":
                 ch = coq_str(e.args[0].value)
                 return self.lift([recv], lambda c: Val(f"(str_remove_char {ch}%char {c[0]})", STR))
+            if recv.ty == ANY and fn.attr == "get" and len(e.args) == 1:
+                kk = self.coerce(self.tr(e.args[0], env), STR, e)
+                return self.lift([recv, kk], lambda c: Val(f"(aval_get_default {c[0]} {c[1]} VNone)", ANY))
             if recv.ty == ANY and fn.attr == "items" and not e.args:
                 self.cur.intrinsic_eff = True
                 return self.lift([recv], lambda c: Val(f"(match {c[0]} with VMap kv => Ok kv | _ => Err AttributeError end)",
@@ -1063,6 +1078,50 @@ class Translator:
             vs = [self.coerce(self.tr(a, env), t, e) for a, t in zip(args, ptys)]
             self.cur.intrinsic_eff = True
             return self.lift(vs, lambda c: Val(tmpl.format(*c), rty, True))
+        if PURE[0] and name in ("Feature", "Relation", "Attribute", "FeatureModel"):
+            order = {"Feature": ["name", "relations", "parent", "is_abstract", "feature_type", "feature_cardinality"],
+                     "Relation": ["parent", "children", "card_min", "card_max"],
+                     "Attribute": ["name", "domain", "default_value", "null_value"],
+                     "FeatureModel": ["root", "constraints"]}[name]
+            given = dict(zip(order, args))
+            for kw in e.keywords:
+                if kw.arg not in order or kw.arg in given:
+                    fail(e, f"unknown or repeated argument {kw.arg} of {name}")
+                given[kw.arg] = kw.value
+
+            def is_none(k):
+                return k not in given or (isinstance(given[k], ast.Constant) and given[k].value is None)
+            if name == "Feature":
+                if not is_none("relations") or "feature_type" in given or "feature_cardinality" in given or "name" not in given:
+                    fail(e, "Feature(...) with other than name / parent / is_abstract")
+                if "parent" in given:
+                    self.tr(given["parent"], env)          # evaluated, not represented (no parent pointers in a tree value)
+                nm = self.coerce(self.tr(given["name"], env), STR, e)
+                ab = self.coerce(self.tr(given["is_abstract"], env), ANY, e) if "is_abstract" in given else Val("(VBool false)", ANY)
+                return self.lift([nm, ab], lambda c: Val(
+                    f"(Feature {{| f_name := {c[0]}; f_abstract := {c[1]}; f_type := TBoolean; f_cmin := 1%Z; f_cmax := 1%Z; "
+                    f"f_attrs := [] |}} [])", PFEATURE))
+            if name == "Relation":
+                if set(given) != set(order):
+                    fail(e, "Relation(...) needs its four arguments")
+                self.tr(given["parent"], env)
+                ch = self.coerce(self.tr(given["children"], env), List(PFEATURE), e)
+                a = self.coerce(self.tr(given["card_min"], env), INT, e)
+                b = self.coerce(self.tr(given["card_max"], env), INT, e)
+                return self.lift([a, b, ch], lambda c: Val(f"(Relation {c[0]} {c[1]} {c[2]})", PRELATION))
+            if name == "Attribute":
+                if not is_none("domain") or "name" not in given:
+                    fail(e, "Attribute(...) with a domain")
+                nm = self.coerce(self.tr(given["name"], env), STR, e)
+                dv = self.coerce(self.tr(given["default_value"], env), ANY, e) if "default_value" in given else Val("VNone", ANY)
+                nv = self.coerce(self.tr(given["null_value"], env), ANY, e) if "null_value" in given else Val("VNone", ANY)
+                return self.lift([nm, dv, nv], lambda c: Val(
+                    f"{{| a_name := {c[0]}; a_dom := None; a_default := {c[1]}; a_null := {c[2]} |}}", ATTRIBUTE))
+            if set(given) != {"root", "constraints"}:
+                fail(e, "FeatureModel(...) needs root and constraints")
+            r = self.coerce(self.tr(given["root"], env), PFEATURE, e)
+            cs = self.coerce(self.tr(given["constraints"], env), List(CTC), e)
+            return self.lift([r, cs], lambda c: Val(f"{{| root := {c[0]}; ctcs := {c[1]} |}}", FMODEL))
         if name == "Node" and 1 <= len(args) <= 3:
             d = self.tr(args[0], env)
             if d.ty == ASTOP:
@@ -1310,12 +1369,12 @@ class Translator:
     def final_store(self, v, env):
         """result of a store function: the store, the new values of the lists it mutates, the value"""
         f = self.cur
-        st = env.vars["$store"][0]
+        st = env.vars["$store"][0] if f.store else None
         if f.export:
             if v is None or v.ty not in (List(SETREF), List(UNKNOWN)) or v.eff:
                 fail(f.node, "an exported store function must return a list of sets")
             return f"(Ok (map (py_store_get {st}) {v.code}))"
-        parts = [st] + [env.vars[n][0] for n in f.inouts]
+        parts = ([st] if f.store else []) + [env.vars[n][0] for n in f.inouts]
         if v is not None:
             v = self.coerce(v, f.ret, f.node)
             if v.eff:
@@ -1345,7 +1404,7 @@ class Translator:
             fail(s, "return inside a loop")
         if s.value is None:
             fail(s, "bare return")
-        if self.cur.store:
+        if self.cur.store or self.cur.inouts:
             return self.final_store(self.tr(s.value, env), env)
         if self.written is not None:
             v = self.tr(s.value, env)
@@ -1373,13 +1432,15 @@ class Translator:
             if v.eff:
                 fail(ctx, "effectful argument of a store function")
             if pn in f.inouts:
-                if not (isinstance(a, ast.Name) and a.id in env.vars and a.id in self.local_containers):
-                    fail(ctx, "a list that the callee mutates must be a local list (or such a parameter) of the caller")
+                if not (isinstance(a, ast.Name) and a.id in env.vars and (a.id in self.local_containers or pt == PFEATURE)):
+                    fail(ctx, "an object that the callee mutates must be a local variable (or such a parameter) of the caller")
                 rebind.append(a.id)
             args.append(v.code)
-        st = self.fresh("st_")
-        en = env.bind("$store", st, STORE)
-        pats = [st]
+        en, pats = env, []
+        if f.store:
+            st = self.fresh("st_")
+            en = env.bind("$store", st, STORE)
+            pats = [st]
         for n in rebind:
             fn = self.fresh(n + "_")
             pats.append(fn)
@@ -1392,21 +1453,35 @@ class Translator:
                 pats.append(fn)
                 en = en.bind(target, fn, self.note_type(target, f.ret, ctx))
         pat = "'(" + ", ".join(pats) + ")" if len(pats) > 1 else pats[0]
-        return (f"(bind ({f.coqname} fuel {env.vars['$store'][0]} " + " ".join(args) + f") (fun {pat} => "
-                + self.block(rest, en, k) + "))")
+        head = f"{f.coqname}" + (" fuel" if f.fuel else "") + (f" {env.vars['$store'][0]}" if f.store else "")
+        if not pats:
+            pat = "_"
+        return (f"(bind ({head} " + " ".join(args) + f") (fun {pat} => " + self.block(rest, en, k) + "))")
 
     def is_store_call(self, v):
         if isinstance(v, ast.Call) and isinstance(v.func, ast.Name):
             f = self.funcs.get((None, v.func.id))
-            return f is not None and f.store
+            return f is not None and (f.store or bool(f.inouts))
         return False
 
     def s_Expr(self, s, rest, env, k):
         v = s.value
         if isinstance(v, ast.Constant) and isinstance(v.value, str):
             return self.block(rest, env, k)          # docstring
-        if self.cur.store and self.is_store_call(v):
+        if self.is_store_call(v):
             return self.store_call(v, None, rest, env, k, s)
+        if (PURE[0] and isinstance(v, ast.Call) and isinstance(v.func, ast.Attribute) and isinstance(v.func.value, ast.Name)
+                and v.func.value.id in env.vars and len(v.args) == 1):
+            recv_name, meth = v.func.value.id, v.func.attr
+            rty = env.vars[recv_name][1]
+            if rty == PFEATURE and meth in ("add_relation", "add_attribute"):
+                want = PRELATION if meth == "add_relation" else ATTRIBUTE
+                a = self.coerce(self.tr(v.args[0], env), want, s)
+                new = self.lift([a], lambda c: Val(f"(py_{meth} {env.vars[recv_name][0]} {c[0]})", PFEATURE))
+                return self.assign(recv_name, new, rest, env, k, s)
+            if rty == ATTRIBUTE and meth == "set_parent":
+                self.tr(v.args[0], env)       # a parent pointer: not represented in a tree value
+                return self.block(rest, env, k)
         if (self.cur.store and isinstance(v, ast.Call) and isinstance(v.func, ast.Attribute) and v.func.attr == "add"
                 and len(v.args) == 1 and isinstance(v.func.value, ast.Name) and v.func.value.id in env.vars
                 and env.vars[v.func.value.id][1] == SETREF):
@@ -1466,7 +1541,7 @@ class Translator:
         if len(s.targets) != 1:
             fail(s, "multiple assignment targets")
         t = s.targets[0]
-        if isinstance(t, ast.Name) and self.cur.store and self.is_store_call(s.value):
+        if isinstance(t, ast.Name) and self.is_store_call(s.value):
             return self.store_call(s.value, t.id, rest, env, k, s)
         if isinstance(t, ast.Name) and self.cur.store and isinstance(s.value, ast.Set):
             # {e1, ...}: a new set object in the store; the variable holds its index
@@ -1670,6 +1745,16 @@ class Translator:
                     add(node.func.value.id)
                 elif isinstance(node, (ast.For, ast.comprehension)):
                     pass
+                if self.cur is not None and PURE[0]:
+                    if isinstance(node, ast.Call) and isinstance(node.func, ast.Name):
+                        g = self.funcs.get((None, node.func.id))
+                        if g is not None and g.inouts:
+                            for a, (pn, pt, pd) in zip(node.args, g.params):
+                                if pn in g.inouts and isinstance(a, ast.Name):
+                                    add(a.id)
+                    if isinstance(node, ast.Call) and isinstance(node.func, ast.Attribute) and isinstance(node.func.value, ast.Name) \
+                            and node.func.attr in ("add_relation", "add_attribute"):
+                        add(node.func.value.id)
                 if self.cur is not None and self.cur.store:
                     if isinstance(node, ast.Set) or (isinstance(node, ast.Call) and isinstance(node.func, ast.Attribute)
                                                      and node.func.attr == "add"):
@@ -1684,12 +1769,11 @@ class Translator:
         return out
 
     def loop_state(self, body, env, ctx):
-        names = [n for n in self.assigned(body) if n in env.vars]
-        if not names:
-            fail(ctx, "a loop that changes no variable bound before it")
-        return names
+        return [n for n in self.assigned(body) if n in env.vars]
 
     def state_tuple(self, names, env):
+        if not names:
+            return "tt"
         return "(" + ", ".join(env.vars[n][0] for n in names) + ")" if len(names) > 1 else env.vars[names[0]][0]
 
     def state_pat(self, names, env):
@@ -1697,7 +1781,7 @@ class Translator:
         en = env
         for n, f in zip(names, fresh):
             en = en.bind(n, f, env.vars[n][1])
-        pat = "'(" + ", ".join(fresh) + ")" if len(names) > 1 else fresh[0]
+        pat = "'(" + ", ".join(fresh) + ")" if len(names) > 1 else (fresh[0] if fresh else "_")
         return en, pat
 
     def check_loop_body(self, body):
@@ -1836,7 +1920,7 @@ class Translator:
                 env = env.bind(pn, pname(pn), pt)
             try:
                 def k_end(en):
-                    if f.store and f.ret == NONE:
+                    if (f.store or f.inouts) and f.ret == NONE:
                         return self.final_store(None, en)
                     if f.mutator:
                         return self.final(Val(en.vars["self"][0], en.vars["self"][1]))
@@ -1861,6 +1945,7 @@ class NeedEff(Exception):
 
 def collect(unit):
     """parse the unit's files and build the FuncInfo table"""
+    PURE[0] = bool(unit.get("pure_features"))
     funcs = {}
     enums = {}
     consts = {}
@@ -2010,6 +2095,13 @@ def collect(unit):
                         and isinstance(x.func.value, ast.Name) and pnames.get(x.func.value.id, ("?",))[0] == "list" \
                         and x.func.value.id not in f.inouts:
                     f.inouts.append(x.func.value.id)
+        if PURE[0] and key[0] is None:
+            pn_ty = {pn: pt for pn, pt, _ in f.params}
+            for x in ast.walk(f.node):
+                if isinstance(x, ast.Call) and isinstance(x.func, ast.Attribute) and x.func.attr in ("add_relation", "add_attribute") \
+                        and isinstance(x.func.value, ast.Name) and pn_ty.get(x.func.value.id) == PFEATURE \
+                        and x.func.value.id not in f.inouts:
+                    f.inouts.append(x.func.value.id)
         if getattr(f, "is_obj", False) and f.ret == NONE:
             f.ret, f.mutator = ("obj", f.cls), True       # a method that only changes the object: the new state
     return funcs, enums, consts, tables, strlists, oplists
@@ -2017,6 +2109,7 @@ def collect(unit):
 
 def translate_unit(unit, externals):
     funcs, enums, consts, tables, strlists, oplists = collect(unit)
+    PURE[0] = bool(unit.get("pure_features"))
     fresh = set()
     tr = Translator(unit["name"], funcs, externals)
     tr.enums = enums
@@ -2080,7 +2173,7 @@ def translate_unit(unit, externals):
             if f.failed:
                 continue
             fuel = f.rec or f.has_while or f.store or any(by_name[c].fuel for c in f.calls)
-            eff = f.intrinsic_eff or fuel or any(by_name[c].eff for c in f.calls) or contains_loop(f.node)
+            eff = f.intrinsic_eff or fuel or bool(f.inouts) or any(by_name[c].eff for c in f.calls) or contains_loop(f.node)
             if fuel != f.fuel or eff != f.eff:
                 f.fuel, f.eff, changed = fuel, eff, True
     # pass 2: emit in dependency order
@@ -2137,6 +2230,9 @@ def translate_unit(unit, externals):
             continue
         params = " ".join(f"({pname(pn)} : {coq_ty(pt)})" for pn, pt, pd in f.params)
         rty = coq_ty(f.ret)
+        if f.inouts and not f.store:
+            comps = [coq_ty(pt) for pn, pt, pd in f.params if pn in f.inouts] + ([rty] if f.ret != NONE else [])
+            rty = "(" + " * ".join(comps) + ")%type" if len(comps) > 1 else comps[0]
         if f.store:
             if f.export:
                 rty = "(list (list lfeat))"
@@ -2271,9 +2367,11 @@ UNITS = [
     {"name": "glencoer", "imports": " Gen.Src_fm",
      "files": [("transformations/glencoe_reader.py", {}, [])],
      "objects": {"transformations/glencoe_reader.py": {"GlencoeReader": ["_parse_ast_constraint"]}}},
-    {"name": "jsonr", "imports": " Gen.Src_fm",
+    {"name": "jsonr", "imports": " Gen.Src_fm", "pure_features": True,
      "files": [("transformations/json_writer.py", {}, []),
-               ("transformations/json_reader.py", {}, ["parse_constraints", "parse_ast_constraint"])]},
+               ("transformations/json_reader.py", {}, ["parse_constraints", "parse_ast_constraint", "parse_tree",
+                                                       "parse_attributes", "parse_relations"])],
+     "objects": {"transformations/json_reader.py": {"JSONReader": ["parse_json"]}}},
     {"name": "json", "imports": " Gen.Src_fm",
      "files": [("transformations/json_writer.py", {},
                 ["to_json", "get_tree_info", "get_attributes_info", "get_constraints_info", "get_ctc_info"])]},
